@@ -221,7 +221,7 @@ def unit_inputs():
     out = []
     for unit in (1, 30, "minutes", 120):
         for header in ("absent", True, "false"):
-            for wf in (0, 1, 2):
+            for wf in (0, 1, 2, 3):
                 out.append({"unit": unit, "header": header, "wf": wf})
     return out
 
@@ -236,8 +236,11 @@ def run_unit_sim(x, wd):
     from topsim.user.plan.batch_planning import BatchPlanning
     from topsim.user.schedule.queue_allocation import QueueProcessing
     u = {"minutes": 60}.get(x["unit"], x["unit"])
-    comps = [[240, 480, 720], [960, 240, 240, 480], [240, 480, 480]][x["wf"]]
-    datas = [[0, 480, 0], [0, 0, 1920, 0], [0, 0, 0]][x["wf"]]
+    comps = [[240, 480, 720], [960, 240, 240, 480], [240, 480, 480], [240, 480, 720]][x["wf"]]
+    datas = [[0, 480, 0], [0, 0, 1920, 0], [0, 0, 0], [0, 480, 0]][x["wf"]]
+    # variant 3: a 120 s observation (a single step in the coarsest unit) whose
+    # volume (360) fills 55 % of the hot buffer
+    dur, hotcap = (120, 650) if x["wf"] == 3 else (240, 5000)
     nodes = []
     for k, c in enumerate(comps):
         d = {"id": k, "comp": c}
@@ -257,19 +260,19 @@ def run_unit_sim(x, wd):
     conf = {
         "instrument": {"telescope": {"total_arrays": 4, "max_ingest_resources": 1,
                                      "pipelines": {"o": {"workflow": "wf.json", "ingest_demand": 1}},
-                                     "observations": [{"name": "o", "start": 0, "duration": 240,
+                                     "observations": [{"name": "o", "start": 0, "duration": dur,
                                                        "instrument_demand": 2, "data_product_rate": 3}]}},
         "cluster": {"header": {}, "system": {"resources": {"m0": {"flops": 2, "compute_bandwidth": 4},
                                                            "m1": {"flops": 2, "compute_bandwidth": 4}},
                                              "system_bandwidth": 4}},
-        "buffer": {"hot": {"capacity": 5000, "max_ingest_rate": 5}, "cold": {"capacity": 5000, "max_data_rate": 2}},
+        "buffer": {"hot": {"capacity": hotcap, "max_ingest_rate": 5}, "cold": {"capacity": 5000, "max_data_rate": 2}},
     }
     if x["unit"] != 1:
         conf["timestep"] = x["unit"]
     cp = os.path.join(sub, "c.json")
     with open(cp, "w") as f:
         json.dump(conf, f)
-    rec = {"x": x, "raised": "", "tasks": [], "vol": -1, "obs_seconds": -1}
+    rec = {"x": x, "raised": "", "tasks": [], "vol": -1, "obs_seconds": -1, "dur": dur, "finished": False}
     try:
         env = simpy.Environment()
         sim = Simulation(env, cp, Telescope, BatchPlanning('batch'), 'batch', QueueProcessing(), timestamp=0)
@@ -280,7 +283,12 @@ def run_unit_sim(x, wd):
             placed[str(task.id)] = (str(machine.id), env.now)
             return orig(task, machine, *a, **k)
         sim.cluster.allocate_task_to_cluster = observe
-        sim.start()
+        # run to completion, but give up far beyond the 2 000 s the work takes
+        chunk = max(5, 200 // u)
+        sim.start(runtime=chunk)
+        while not sim.is_finished() and env.now * u < 6000:
+            sim.resume(until=env.now + chunk)
+        rec["finished"] = bool(sim.is_finished())
         cl = sim.cluster._clusters["default"]
         for t in cl["tasks"]["finished"]:
             if "ingest" in str(t.id):
